@@ -200,7 +200,7 @@ PROPS['C08'] = dict(
     technique='Verus: absence of overflow, out-of-range indexing, failed assert/unwrap in every function under contract; File/ReadUtf8/Include mapping of the wrappers; classified inventory of all panic sites',
     level_text='Every function under a Verus contract (Range, PreprocessedText, Iter/EventIter, conversions, Locate fold, get_str*, the lifted arms, the wrappers) is proved free of arithmetic overflow, out-of-range slicing/indexing and failed assert!/unwrap under its stated precondition; preprocess_inner reports File{path}/ReadUtf8(path), the include arm wraps in Include; every other panic site of the six crates is inventoried and classified (proved by unit / discharged by a generated rule / unverified).',
     level_note='Partial: panic sites classified unverified are listed in the evidence and not proved; grammar invariants (each node has a contiguous leaf, identifier present) are preconditions discharged by gvc.faithful rules, not by Verus; stack exhaustion by nesting is outside the claim; a new unclassified panic site makes the run undecided.',
-    not_covered=['RefCell borrows of the thread-locals', 'the nom parsers themselves (no panics assumed in nom)', 'Display of RefNode (generated by build.rs)'],
+    not_covered=['RefCell borrows inside the memo code generated by nom_packrat (dependency; the 17 borrows written in the six crates are discharged by rule borrow-local)', 'the nom parsers themselves (no panics assumed in nom)', 'Display of RefNode (generated by build.rs)'],
 )
 PROPS['C19'] = dict(
     title='thread independence',
